@@ -272,6 +272,13 @@ func main() {
 
 	// single replay mode
 	if *replay != "" {
+		if !filepath.IsAbs(*replay) {
+			cwd, _ := os.Getwd()
+			*replay = filepath.Join(cwd, *replay)
+		}
+		if _, err := os.Stat(*replay); err != nil {
+			fatal2("replay file: %v", err)
+		}
 		failFile := filepath.Join(scratch, "replay.fail.json")
 		code, out, to := runProc(bin, []string{"-test.run", "^TestReplay$", "-test.count=1", "-test.timeout=10m"},
 			baseEnv("VERIF_REPLAY="+*replay, "VERIF_FAIL="+failFile), hdir, 12*time.Minute)
